@@ -259,7 +259,8 @@ def gen_tree(d, i, r, mode):
         if r.random() < 0.5:
             cc['file_name_format'] = 'crt-%d-{{ name }}.{{ file_type }}.{{ ext }}' % next(vals)
         if r.random() < 0.3:
-            cc['directory'] = '%s/store/own%d' % (root, k)
+            # absolute, or relative (taken as written, not placed under the global directory)
+            cc['directory'] = '%s/store/own%d' % (root, k) if r.random() < 0.5 else r.choice(['own_rel/tls%d' % k, './rel%d' % k, 'rel%d' % k])
         if r.random() < 0.4:
             cc['env'] = {'CERTVAR': 'c%d' % k}
         content[place()].setdefault('certificate', []).append(cc)
@@ -307,7 +308,7 @@ def gen_tree(d, i, r, mode):
             content[f]['global'] = {}
     # negative cases
     if mode == 'dangling':
-        kind = r.choice(['endpoint', 'account', 'hook', 'group-member', 'rate-limit', 'duplicate-id', 'account-hook'])
+        kind = r.choice(['endpoint', 'account', 'hook', 'group-member', 'rate-limit', 'duplicate-id', 'account-hook', 'unused-account-hook', 'unused-account-group'])
         desc['broken'] = kind
         f0 = [f for f in files if content[f].get('certificate')][0]
         c0 = content[f0]['certificate'][0]
@@ -322,6 +323,13 @@ def gen_tree(d, i, r, mode):
             c0['hooks'] = ['grpbad']
         elif kind == 'rate-limit':
             ep_cfg[c0['endpoint']]['rate_limits'] = ['missing-limit']
+        elif kind in ('unused-account-hook', 'unused-account-group'):
+            # an account no certificate uses is part of the configuration all the same
+            ac = {'name': 'ac-unused', 'contacts': [{'mailto': 'unused@example.org'}], 'hooks': ['missing-hook']}
+            if kind == 'unused-account-group':
+                content[place()].setdefault('group', []).append({'name': 'grpbad2', 'hooks': [hooks[0], 'missing-member']})
+                ac['hooks'] = ['grpbad2']
+            content[place()].setdefault('account', []).append(ac)
         elif kind == 'account-hook':
             fa = [f for f in files if content[f].get('account')][0]
             content[fa]['account'][0]['hooks'] = ['missing-hook']
